@@ -275,10 +275,18 @@ def _block(ident, lines, indent="    "):
     return f"//@@ {ident}\n{body}\n//@@ end\n"
 
 
+# constructs of a function under contract that carry no specification and are therefore opaque to the verifier:
+# closures without a @closure contract, loops no @loop directive mentions. {unit: {fn: {"closures": n, "bare_loops": k}}}
+SHAPE = {}
+
+
 def splice_item(item, contracts, unit_name, used, canaries):
     """Returns item text with contracts spliced in and markers removed."""
     text = item["text"]
     fninfo = {f["name"]: f for f in item["fns"]}
+    for q, f in fninfo.items():
+        if q in contracts:
+            SHAPE.setdefault(unit_name, {})[q] = {"closures": int(f.get("closures", 0)), "bare_loops": 0}   # annotated ones are subtracted below
 
     # ---- traits: ghost members after the opening brace; contracts on body-less method declarations before the `;`
     if item["kind"] == "impl":
@@ -326,6 +334,8 @@ def splice_item(item, contracts, unit_name, used, canaries):
             n = region.count(pat)
             if n == 0:
                 raise Undecided("lost-anchor", f"{q}: closure `{pat}` not found")
+            if q in SHAPE.get(unit_name, {}):
+                SHAPE[unit_name][q]["closures"] = max(0, SHAPE[unit_name][q]["closures"] - n)
             bar2 = pat.index("|", pat.index("|") + 1)
             body = pat[bar2 + 1:].strip()
             header = " ".join(t.strip() for t, _ in cl["lines"])
@@ -459,6 +469,8 @@ def splice_item(item, contracts, unit_name, used, canaries):
     def loop_sub(m):
         q, idx, head = m.group(1), int(m.group(2)), _unescape(m.group(3))
         c = contracts.get(q)
+        if c is not None and not c.loops and q in SHAPE.get(unit_name, {}):
+            SHAPE[unit_name][q]["bare_loops"] += 1
         if not c or not c.loops:
             return ""
         key = (q, _nows(head))
@@ -466,6 +478,8 @@ def splice_item(item, contracts, unit_name, used, canaries):
         occ[key] = k + 1
         same = [i for i in sorted(c.loops) if _nows(c.loops[i]["head"]) == _nows(head)]
         if k >= len(same):
+            if q in SHAPE.get(unit_name, {}):
+                SHAPE[unit_name][q]["bare_loops"] += 1
             return ""   # a loop the contracts do not mention: verus will demand what it needs (invariants / decreases)
         cidx = same[k]
         c.loops[cidx]["_seen"] = True
